@@ -15,7 +15,7 @@ STUBS = ["lower transport -> recording object; sessions -> recording ISession ob
          "WebSocket opening handshake driven with canned HTTP requests/responses around the real processHandshake code", "serializers run for real on concrete messages (C codecs); a length-only stub serializer is used for the size-limit arithmetic",
          "Twisted's Int32StringReceiver (library code) is executed concretely; frame prefixes fed to it are concrete boundary values, those fed to the repository's own asyncio PrefixProtocol are free octets"]
 ASSUMPTIONS = [
-    "asyncio WebSocket adapter (needs a running loop for its receive queue) is not driven; WebSocket negotiation is checked on the Twisted adapter, RawSocket on both frameworks",
+    "WebSocket negotiation is checked on the Twisted adapter and, for a subset of the settings, on the asyncio adapter (hand-stepped event loop); RawSocket on both frameworks; message streams/corruption over WebSocket on Twisted only",
 ]
 BOUNDS = {
     "quick": "RawSocket handshake: all 4 octets free (2^32 values) x every 1-cut segmentation + octet-wise, both roles, both frameworks, serializer sets {json},{json,msgpack}; send limit: all 16 peer exponents x lengths {limit-1, limit, limit+1}; receive limit: asyncio free 4-octet prefix, Twisted boundary prefixes; WebSocket: client lists = all ordered selections of <= 3 of 5 subprotocol ids x server sets from 4 subsets; 3-message streams under every 1-cut segmentation; 6 corruption kinds",
@@ -376,14 +376,42 @@ def corrupt(sx, transport_kind, kind):
 SUBS = ["wamp.2.json", "wamp.2.json.batched", "wamp.2.msgpack", "wamp.2.cbor", "wamp.2.nosuch", "chat"]
 
 
-def ws_negotiation(sx, nclient, server_set):
+def _ws_factory(fw, server, session_factory, sers):
+    """(protocol, feed(data), transport) for a WAMP-over-WebSocket endpoint of the given framework"""
+    from symx.env import Addr
+    t = FakeTransport(Trace(), "S" if server else "C")
+    if fw == "asyncio":
+        from autobahn.asyncio import websocket as aw
+        loop = wslib.setup_asyncio()
+        wslib.patch_env_aio(None)
+        f = (aw.WampWebSocketServerFactory if server else aw.WampWebSocketClientFactory)(session_factory, "ws://localhost:9000", serializers=sers, loop=loop)
+        f.log = NULLLOG
+        p = f()
+        p.log = NULLLOG
+        p.connection_made(t)
+        wslib.run_loop(loop)
+
+        def feed(data):
+            p.data_received(data)
+            wslib.run_loop(loop)
+            if loop.verif_errors:
+                raise RuntimeError("exception reached the event loop: %s" % loop.verif_errors[0])
+        return p, feed, t
+    from autobahn.twisted import websocket as tw
+    clock = wslib.setup_twisted()
+    wslib.patch_env(None, clock, fixed_rnd=True)
+    f = (tw.WampWebSocketServerFactory if server else tw.WampWebSocketClientFactory)(session_factory, "ws://localhost:9000", serializers=sers, reactor=clock)
+    f.log = NULLLOG
+    p = f.buildProtocol(Addr())
+    p.log = NULLLOG
+    p.makeConnection(t)
+    return p, p.dataReceived, t
+
+
+def ws_negotiation(sx, nclient, server_set, fw="twisted"):
     """server picks the first commonly supported wamp.2.* subprotocol in the CLIENT's order; both ends then use that serializer"""
     import base64
-    from autobahn.twisted import websocket as tw
     from autobahn.wamp import serializer as S
-    from symx.env import Addr
-    clock = wslib.setup_twisted()
-    wslib.patch_env(sx, clock, fixed_rnd=True)
     # client preference list: an ordered selection without repetition (free choices)
     pool = list(SUBS)
     client = []
@@ -394,24 +422,18 @@ def ws_negotiation(sx, nclient, server_set):
           "wamp.2.msgpack": lambda: S.MsgPackSerializer(), "wamp.2.cbor": lambda: S.CBORSerializer()}
     sers = [mk[n]() for n in server_set]
     log = []
-    f = tw.WampWebSocketServerFactory(lambda: RecSession(log), "ws://localhost:9000", serializers=sers, reactor=clock)
-    f.log = NULLLOG
-    p = f.buildProtocol(Addr())
-    p.log = NULLLOG
-    tr = Trace()
-    t = FakeTransport(tr, "S")
-    p.makeConnection(t)
+    p, feed, t = _ws_factory(fw, True, lambda: RecSession(log), sers)
     key = base64.b64encode(wslib._FIXED_KEY)
     req = (b"GET / HTTP/1.1\r\nHost: localhost:9000\r\nUpgrade: websocket\r\nConnection: Upgrade\r\nSec-WebSocket-Key: " + key +
            b"\r\nSec-WebSocket-Protocol: " + ",".join(client).encode() + b"\r\nSec-WebSocket-Version: 13\r\n\r\n")
     try:
-        p.dataReceived(req)
+        feed(req)
     except Exception as e:  # noqa
         sx.fail("exception-escapes-handshake", info=repr(e))
         return ["exc"]
     resp = bytes(wslib.concat(t.take()))
     common = [c for c in client if c in server_set]
-    info = dict(client=client, server=server_set)
+    info = dict(client=client, server=server_set, fw=fw)
     attached = any(e[0] == "open" for e in log)
     if common:
         want = common[0]
@@ -441,36 +463,27 @@ def ws_negotiation(sx, nclient, server_set):
     return [client, common[:1]]
 
 
-def ws_client(sx, offered, answer):
+def ws_client(sx, offered, answer, fw="twisted"):
     """client side: a response naming a subprotocol the client did not request fails the handshake; otherwise the named serializer is used"""
     import base64
     import hashlib
-    from autobahn.twisted import websocket as tw
     from autobahn.wamp import serializer as S
-    from symx.env import Addr
-    clock = wslib.setup_twisted()
-    wslib.patch_env(sx, clock, fixed_rnd=True)
     mk = {"wamp.2.json": lambda: S.JsonSerializer(), "wamp.2.json.batched": lambda: S.JsonSerializer(batched=True),
           "wamp.2.msgpack": lambda: S.MsgPackSerializer(), "wamp.2.cbor": lambda: S.CBORSerializer()}
     log = []
-    f = tw.WampWebSocketClientFactory(lambda: RecSession(log), "ws://localhost:9000", serializers=[mk[n]() for n in offered], reactor=clock)
-    f.log = NULLLOG
-    p = f.buildProtocol(Addr())
-    p.log = NULLLOG
-    t = FakeTransport(Trace(), "C")
-    p.makeConnection(t)
+    p, feed, t = _ws_factory(fw, False, lambda: RecSession(log), [mk[n]() for n in offered])
     req = bytes(wslib.concat(t.take()))
     sx.check(b"Sec-WebSocket-Protocol: " + ",".join(offered).encode() + b"\r\n" in req, "client-offers-its-list-in-order", info=dict(offered=offered))
     key = base64.b64encode(wslib._FIXED_KEY)
     acc = base64.b64encode(hashlib.sha1(key + b"258EAFA5-E914-47DA-95CA-C5AB0DC85B11").digest())
     hdr = b"" if answer is None else b"Sec-WebSocket-Protocol: " + answer.encode() + b"\r\n"
     try:
-        p.dataReceived(b"HTTP/1.1 101 Switching Protocols\r\nUpgrade: websocket\r\nConnection: Upgrade\r\n" + hdr + b"Sec-WebSocket-Accept: " + acc + b"\r\n\r\n")
+        feed(b"HTTP/1.1 101 Switching Protocols\r\nUpgrade: websocket\r\nConnection: Upgrade\r\n" + hdr + b"Sec-WebSocket-Accept: " + acc + b"\r\n\r\n")
     except Exception as e:  # noqa
         sx.fail("exception-escapes-handshake", info=repr(e))
         return ["exc"]
     attached = any(e[0] == "open" for e in log)
-    info = dict(offered=offered, answer=answer)
+    info = dict(offered=offered, answer=answer, fw=fw)
     if answer in offered:
         sx.check(attached and p._serializer.SERIALIZER_ID == answer[len("wamp.2."):], "client-uses-the-serializer-the-server-named", info=info)
         sx.cover("ws:selected")
@@ -511,4 +524,9 @@ def units(tier):
     for offered in (["wamp.2.json"], ["wamp.2.msgpack", "wamp.2.json"], ["wamp.2.json.batched", "wamp.2.json"]):
         for answer in (None, "wamp.2.json", "wamp.2.msgpack", "wamp.2.json.batched", "wamp.2.cbor", "chat"):
             U.append(("wsc/%s/%s" % ("+".join(x[7:] for x in offered), answer), "ws_client", dict(offered=offered, answer=answer)))
+    # the same negotiation through the asyncio adapter (own interpreter per unit)
+    for ss in sets[1:3] if q else sets:
+        U.append(("ws-aio/n2/%s" % "+".join(x[7:] for x in ss), "ws_negotiation", dict(nclient=2, server_set=ss, fw="asyncio"), dict(weight=5, framework="asyncio")))
+    for answer in (None, "wamp.2.json", "wamp.2.cbor", "chat"):
+        U.append(("wsc-aio/%s" % answer, "ws_client", dict(offered=["wamp.2.msgpack", "wamp.2.json"], answer=answer, fw="asyncio"), dict(weight=3, framework="asyncio")))
     return U
